@@ -144,6 +144,7 @@ void harness(void) {
 		VF_NONDET(uint8_t, null_sel);
 		VF_ASSUME(max_tries >= 1 && max_tries <= 2);			/* THE BOUND of the scheduling loop; 0 = no limit: with every address failing at once the loop has no exit (see not_covered) */
 		VF_ASSUME(ident_none);
+		VF_ASSUME(addrs_count >= 1);	/* precondition: an empty address list is not validated by the code (it ends as -1 after reading addrs[0]) */
 		r = tp_task_connect_ex_create((null_sel == 1) ? NULL : tpt, tflags, timeout, (null_sel == 2) ? NULL : &prm, vf_cex_cb, &vf_cb_calls, (null_sel == 3) ? NULL : &nt);
 		__CPROVER_input("obs_result", r);
 		__CPROVER_input("obs_connect_calls", vf_connect_calls);
